@@ -84,7 +84,12 @@ func (values SortValues) Serialize(buf *bytes.Buffer) {
 		case IntegerType, BooleanType:
 			serializeInteger(buf, value.Int64ToStr(val.Integer))
 		case FloatType:
-			serializeFloat(buf, value.Float64ToStr(val.Float, false))
+			if val.Float == 0 {
+				// 0 and -0 are equal values
+				serializeFloat(buf, "0")
+			} else {
+				serializeFloat(buf, value.Float64ToStr(val.Float, false))
+			}
 		case DatetimeType:
 			serializeDatetimeFromUnixNano(buf, val.Datetime)
 		case StringType:
